@@ -357,11 +357,25 @@ func buildResourceTrafficShapingController(res string, resRules []*Rule, oldResT
 	// otherwise the unchanged rule is rebuilt from scratch and loses its runtime state.
 	reserved := make(map[TrafficShapingController]bool, len(oldResTcs))
 	matched := make([]bool, len(resRules))
-	for i, rule := range resRules {
-		for _, oldTc := range oldResTcs {
-			if !reserved[oldTc] && oldTc.BoundRule().Equals(rule) {
+	// equalOf[i] is the old one that stays in place for rule i. Rules that find an equal old rule under
+	// their own ID are served first: a rule that differs from another one only in its ID must not be
+	// given that one's state (and leave its own behind) just because it is listed earlier.
+	equalOf := make([]TrafficShapingController, len(resRules))
+	for pass := 0; pass < 2; pass++ {
+		for i, rule := range resRules {
+			if matched[i] {
+				continue
+			}
+			for _, oldTc := range oldResTcs {
+				if reserved[oldTc] || !oldTc.BoundRule().Equals(rule) {
+					continue
+				}
+				if pass == 0 && (rule.ID == "" || oldTc.BoundRule().ID != rule.ID) {
+					continue
+				}
 				reserved[oldTc] = true
 				matched[i] = true
+				equalOf[i] = oldTc
 				break
 			}
 		}
@@ -381,13 +395,21 @@ func buildResourceTrafficShapingController(res string, resRules []*Rule, oldResT
 			}
 		}
 	}
-	for _, rule := range resRules {
+	for i, rule := range resRules {
 		if res != rule.Resource {
 			logging.Error(errors.Errorf("unmatched resource name, expect: %s, actual: %s", res, rule.Resource), "Unmatched resource name in hotspot.buildResourceTrafficShapingController()", "rule", rule)
 			continue
 		}
 
-		equalIdx, reuseStatIdx := calculateReuseIndexFor(rule, oldResTcs)
+		equalIdx, reuseStatIdx := -1, -1
+		if equalOf[i] != nil {
+			for idx, oldTc := range oldResTcs {
+				if oldTc == equalOf[i] {
+					equalIdx = idx
+					break
+				}
+			}
+		}
 		if equalIdx < 0 {
 			reuseStatIdx = -1
 			for idx, oldTc := range oldResTcs {
